@@ -53,6 +53,7 @@ func exactStrings(args []Val) ([]string, bool) {
 }
 
 func installStringModels(m *Machine) {
+	installMapModels(m)
 	errT := types.Universe.Lookup("error").Type()
 	s1 := func(f func(a string) Val) HookFn {
 		return func(m *Machine, st *State, call *ssa.CallCommon, args []Val) ([]Val, bool) {
@@ -80,6 +81,7 @@ func installStringModels(m *Machine) {
 	m.Hooks["path/filepath.Ext"] = s1(func(a string) Val { return filepath.Ext(a) })
 	m.Hooks["path/filepath.Clean"] = s1(func(a string) Val { return filepath.Clean(a) })
 	m.Hooks["path.Base"] = s1(func(a string) Val { return path.Base(a) })
+	m.Hooks["path.Ext"] = s1(func(a string) Val { return path.Ext(a) })
 	m.Hooks["strings.Contains"] = s2(func(st *State, a, b string) Val { return strings.Contains(a, b) })
 	m.Hooks["strings.HasPrefix"] = s2(func(st *State, a, b string) Val { return strings.HasPrefix(a, b) })
 	m.Hooks["strings.HasSuffix"] = s2(func(st *State, a, b string) Val { return strings.HasSuffix(a, b) })
@@ -954,6 +956,71 @@ func repoPred(m *Machine, cur *State, v Val, failed *bool) func(rune) bool {
 			*failed = true
 		}
 		return b
+	}
+}
+
+// repoRuneMap turns a mapping function value of the repository (func(rune) rune) into a Go function that
+// interprets it on a copy of the caller's state.
+func repoRuneMap(m *Machine, cur *State, v Val, failed *bool) func(rune) rune {
+	fv, ok := v.(*FuncV)
+	if !ok {
+		return nil
+	}
+	f, ok := fv.Fn.(*ssa.Function)
+	if !ok || f.Blocks == nil || !inRepoOrRef(f) {
+		return nil
+	}
+	var scratch *State
+	return func(r rune) rune {
+		if scratch == nil {
+			scratch = cur.Clone()
+		}
+		st := scratch
+		st.Status = stRun
+		st.Frames = nil
+		st.push(f, []Val{int64(r)}, fv.Bind)
+		out := m.Run(st)
+		if len(out) != 1 || out[0].Status != stRet {
+			*failed = true
+			return r
+		}
+		n, ok := out[0].Ret.(int64)
+		if !ok {
+			*failed = true
+			return r
+		}
+		return rune(n)
+	}
+}
+
+// installMapModels: strings.Map and bytes.Map with a mapping function of the repository, on exact inputs. The
+// real functions do the work, so that invalid UTF-8 comes out as U+FFFD exactly as it does there.
+func installMapModels(m *Machine) {
+	m.Hooks["strings.Map"] = func(m *Machine, st *State, call *ssa.CallCommon, args []Val) ([]Val, bool) {
+		s, ok := args[1].(string)
+		failed := false
+		f := repoRuneMap(m, st, args[0], &failed)
+		if !ok || f == nil {
+			return nil, false
+		}
+		res := strings.Map(f, s)
+		if failed {
+			return nil, false
+		}
+		return []Val{res}, true
+	}
+	m.Hooks["bytes.Map"] = func(m *Machine, st *State, call *ssa.CallCommon, args []Val) ([]Val, bool) {
+		b, ok := exactBytes(m, st, args[1])
+		failed := false
+		f := repoRuneMap(m, st, args[0], &failed)
+		if !ok || f == nil {
+			return nil, false
+		}
+		res := bytes.Map(f, b)
+		if failed {
+			return nil, false
+		}
+		return []Val{byteSliceVal(st, res)}, true
 	}
 }
 
